@@ -120,6 +120,10 @@ def run(F, R):
     # recycles a free descriptor and unshares its buffer a second time
     from .C19 import poll_rule
     poll_rule(F, R, 'T10')
+    # ... and the same for the input driver, which trusts the id the device reports because every event buffer is always posted under
+    # its own token: a return after the pop without the re-add leaves the token free to be recycled a second time (T13)
+    from .C19 import pop_readd_rule
+    pop_readd_rule(F, R, 'T13')
     # T12: the token check of pop_used is what ties a device-reported id to the chain a blocking call submitted: the helper passes
     # the token of its own add, never the id the device wrote (C03.E8)
     from .C03 import e8_helper_token
